@@ -43,6 +43,7 @@ type Gen struct {
 	contractOrder []string
 	lemmas     []*LemmaDecl
 	globalNames []string
+	callersDecl []*CallersDecl
 	globalNonNil map[*ssa.Global]bool
 	subCount   int
 	subIDs     map[string]int
